@@ -106,6 +106,13 @@ func (s *serviceImpl) Add(obj Actor) (index uint32, err error) {
 	err = obj.Activate(a)
 
 	s.Lock()
+	if _, ok := s.objects[index]; !ok && err == nil {
+		// the object has been removed while it was activated (it
+		// terminated itself, for instance): it is not put back.
+		s.Unlock()
+		obj.OnTerminate()
+		return
+	}
 	if err != nil {
 		s.objects[index] = nil
 	} else {
